@@ -14,6 +14,14 @@
 //	     with the caller-side facts (which argument nodes have an edge to their later use, the tuple
 //	     index on call -> use-of-result edges) read off the real caller graph.
 //
+// Call forms ("for all call forms"): plain call statement (F, FM, I, IP, IE, FV, MV) and, per matrix, one of
+// D `defer f(a…)` (sinks on the other arguments deferred earlier; results are discarded by the language, so only the
+// arg -> arg part is observable: the model runs on the observed signature, contract_flows_discarded_results),
+// G `go f(a…)` + receive on the channel the body signals on (exactness demanded, completeness counted: goroutines
+// are outside the tool's documented fragment), C / CC call inside an immediately-invoked closure (arguments as
+// parameters / captured variables), MX method expression (*T).M (a call to the synthetic thunk: compared with
+// the specification, exactly).
+//
 // A difference between the real flows and what the specification lists IS a failing input of the
 // property (the program and the spec file are the replay).
 package main
@@ -86,7 +94,11 @@ func complement(m [][]int, cols int) [][]int {
 var forms = []string{"F", "FM", "I", "IP"}
 
 func (c *ccase) key() string {
-	return fmt.Sprintf("%s%s/n%d/m%d/%s/%s/all=%v", c.form, c.embed, c.n, c.m, matrix(c.args), matrix(c.rets), c.bodyAll)
+	w := ""
+	if c.wrap != "" {
+		w = c.wrap + "-"
+	}
+	return fmt.Sprintf("%s%s%s/n%d/m%d/%s/%s/all=%v", w, c.form, c.embed, c.n, c.m, matrix(c.args), matrix(c.rets), c.bodyAll)
 }
 
 // buildCases enumerates the specification cases of this run.
@@ -155,6 +167,50 @@ func buildCases(rep *lib.Report) []*ccase {
 		m := r.Intn(3)
 		add(3, m, uint(r.Intn(1<<9)), uint(r.Intn(1<<uint(3*m))), forms[r.Intn(4)], r.Intn(2) == 0)
 	}
+	// defer / go / closure call forms and method expressions ("for all call forms"): every arity <= 2 matrix under one
+	// (wrap, base form) selected by the matrix and the seed (thorough: under every wrap), plus random arity 3
+	wraps := []string{"D", "G", "C", "CC", "MX"}
+	bases := []string{"F", "FM", "I"}
+	addW := func(n, m int, ab, rb uint, w, base string, all bool) {
+		before := len(cs)
+		if w == "MX" {
+			add(n, m, ab, rb, "MX", all)
+			return
+		}
+		add(n, m, ab, rb, base, all)
+		if len(cs) > before {
+			cs[len(cs)-1].wrap = w
+		}
+	}
+	nWrapped := 0
+	for n := 0; n <= 2; n++ {
+		for m := 0; m <= 2; m++ {
+			for ab := uint(0); ab < 1<<uint(n*n); ab++ {
+				for rb := uint(0); rb < 1<<uint(n*m); rb++ {
+					h := int(ab)*3 + int(rb) + int(lib.Seed())
+					if lib.Thorough() {
+						for wi, w := range wraps {
+							addW(n, m, ab, rb, w, bases[(h+wi)%3], (h+wi)%2 == 0)
+							nWrapped++
+						}
+					} else {
+						addW(n, m, ab, rb, wraps[h%5], bases[(h/5)%3], (h/15)%2 == 0)
+						nWrapped++
+					}
+				}
+			}
+		}
+	}
+	nW3 := 60
+	if lib.Thorough() {
+		nW3 = 2000
+	}
+	for k := 0; k < nW3; k++ {
+		m := r.Intn(3)
+		addW(3, m, uint(r.Intn(1<<9)), uint(r.Intn(1<<uint(3*m))), wraps[k%5], bases[r.Intn(3)], r.Intn(2) == 0)
+		nWrapped++
+	}
+	rep.Extra["defer_go_closure_methodexpr_cases"] = nWrapped
 	// further call forms: FV = call through a function value (callee from the call graph), MV = call through a
 	// method value (bound method wrapper; compared with the specification only, not with the one-call model)
 	nMore := 100
@@ -330,7 +386,7 @@ func runBatch(rep *lib.Report, batch int, cs []*ccase, onDemand bool) bool {
 		// ---- M4: the contract graph
 		key := mod + "." + c.fname()
 		switch c.form {
-		case "FM", "MV":
+		case "FM", "MV", "MX":
 			key = "(*" + mod + ".T)." + c.fname()
 		case "I", "IP":
 			key = fmt.Sprintf("%s.I_%d.%s", mod, c.id, c.fname())
@@ -365,10 +421,11 @@ func runBatch(rep *lib.Report, batch int, cs []*ccase, onDemand bool) bool {
 		for i := 0; i < c.n; i++ {
 			sc := &subcase{c: c, i: i}
 			s := sid(c, i)
+			cross := ""
 			for p := range pairs {
 				if p[0] != s || p[1]/slots != s {
 					if p[0] == s || p[1]/slots == s {
-						sc.shapeErr = fmt.Sprintf("flow between different cases: source_%d -> sink_%d", p[0], p[1])
+						cross = fmt.Sprintf("source_%d -> sink_%d", p[0], p[1])
 					}
 					continue
 				}
@@ -379,7 +436,13 @@ func runBatch(rep *lib.Report, batch int, cs []*ccase, onDemand bool) bool {
 					sc.real = append(sc.real, fmt.Sprintf("A%d", slot-4))
 				}
 			}
-			caller := byName[fmt.Sprintf("case_%d_%d", c.id, i)]
+			if cross != "" {
+				// every sink is only reachable from the source of its own one-call function through the specified call:
+				// a flow between two of them is a flow no specification lists (program + spec file = failing input)
+				rep.Fail("contract-flows:"+c.key()+fmt.Sprintf("/src=%d/cross", i), "a flow that no specification lists is reported between two one-call functions: "+cross, caseReplay(c, cs, mod), false)
+				continue
+			}
+			caller := byName[c.callerName(i)]
 			if caller == nil || st.FlowGraph.Summaries[caller] == nil {
 				rep.Fail("harness-shape:"+c.key(), "caller summary missing", caseReplay(c, cs, mod), true)
 				continue
@@ -412,12 +475,13 @@ func runBatch(rep *lib.Report, batch int, cs []*ccase, onDemand bool) bool {
 				}
 				continue
 			}
-			if c.form == "MV" {
+			if c.form == "MV" || c.form == "MX" {
+				// (MX: a method expression (*T).M is a call to the synthetic thunk M$thunk, whose analysed body calls M)
 				// outside the one-call family (the call goes through the synthetic bound-method wrapper):
 				// the property itself is still checked: reported flows == what the specification lists
 				kk := c.key() + fmt.Sprintf("/src=%d", i)
 				rep.Case(kk)
-				rep.Count("form=MV")
+				rep.Count("form=" + c.form)
 				// The call resolves to the synthetic wrapper M$bound, whose analysed body calls the specified
 				// method: every listed flow must be reported; additional flows (the traversal composes
 				// arg -> receiver -> result through the wrapper) are counted, they are not flows of a call
@@ -434,15 +498,21 @@ func runBatch(rep *lib.Report, batch int, cs []*ccase, onDemand bool) bool {
 					}
 				}
 				if want != real {
-					rep.Count("MV:extra-flows-through-bound-wrapper")
+					rep.Count(c.form + ":extra-flows-through-bound-wrapper")
+					if c.form == "MX" && len(lost) == 0 {
+						// the thunk only forwards its parameters to the specified method (no captured receiver): the
+						// flows of the call must be exactly the listed ones
+						content := append(caseReplay(c, cs, mod), []byte(fmt.Sprintf("\n/* source at argument %d (source_%d)\n   specification lists : %s\n   real tool reports   : %s\n*/\n", i, sid(c, i), want, real))...)
+						rep.Fail("contract-flows:"+kk, fmt.Sprintf("a flow the specification does not list is reported for the call through a method expression: spec lists %s, tool reports %s", want, real), content, false)
+					}
 				}
 				if len(lost) > 0 {
 					content := append(caseReplay(c, cs, mod), []byte(fmt.Sprintf("\n/* source at argument %d (source_%d)\n   specification lists : %s\n   real tool reports   : %s\n*/\n", i, sid(c, i), want, real))...)
-					rep.Fail("contract-flows:"+kk, fmt.Sprintf("a flow the specification lists is not reported for the call through a method value: spec lists %s, tool reports %s", want, real), content, false)
+					rep.Fail("contract-flows:"+kk, fmt.Sprintf("a flow the specification lists is not reported for the call through a method value / method expression: spec lists %s, tool reports %s", want, real), content, false)
 				}
 				continue
 			}
-			fmt.Fprintf(&in, "visit\t%d.%d\t%d\t%d\t%d\t%s\t%s\t%s\t%s\n", c.id, i, c.n, c.m, i, sc.ptr, sc.resIdx, matrix(c.args), matrix(c.rets))
+			fmt.Fprintf(&in, "visit\t%d.%d\t%d\t%d\t%d\t%s\t%s\t%s\t%s\n", c.id, i, c.n, c.mObs(), i, sc.ptr, sc.resIdx, matrix(c.args), matrix(c.rets))
 			checks = append(checks, check{kind: "visit", sc: sc, c: c, real: join(sc.real)})
 			in.WriteString(sc.linkInput)
 			checks = append(checks, check{kind: "link", sc: sc, c: c, real: sc.linkReal})
@@ -496,6 +566,9 @@ func runBatch(rep *lib.Report, batch int, cs []*ccase, onDemand bool) bool {
 			k := c.key() + fmt.Sprintf("/src=%d", sc.i)
 			rep.Case(k)
 			rep.Count("form=" + c.form)
+			if c.wrap != "" {
+				rep.Count("wrap=" + c.wrap + "/" + c.form)
+			}
 			rep.Count(fmt.Sprintf("arity=%d,results=%d", c.n, c.m))
 			rep.Count(fmt.Sprintf("bodyAll=%v", c.bodyAll))
 			rep.Count(fmt.Sprintf("onDemand=%v", onDemand))
@@ -510,6 +583,37 @@ func runBatch(rep *lib.Report, batch int, cs []*ccase, onDemand bool) bool {
 			model := field(f, "reported")
 			// what the specification lists for this source position, independently of any model
 			want := listed(c, sc)
+			if c.wrap != "" {
+				rep.Count(fmt.Sprintf("wrap=%s:observable-args=%d,listed=%d", c.wrap, strings.Count(sc.ptr, "1"), len(splitList(want))))
+			}
+			if c.wrap == "G" {
+				// `go f(a…)`: goroutines are outside the fragment for which the tool claims completeness (it warns
+				// "Data flows to Go call"): demanded = exactness (no flow other than the listed ones is reported);
+				// the completeness direction is counted
+				have := map[string]bool{}
+				for _, x := range splitList(want) {
+					have[x] = true
+				}
+				var extra []string
+				for _, x := range sc.real {
+					if !have[x] {
+						extra = append(extra, x)
+					}
+				}
+				if len(extra) > 0 {
+					content := append(caseReplay(c, cs, mod), []byte(fmt.Sprintf("\n/* source at argument %d (source_%d)\n   specification lists : %s\n   real tool reports   : %s\n   not listed          : %s\n*/\n", sc.i, sid(c, sc.i), want, ck.real, join(extra)))...)
+					rep.Fail("contract-flows:"+k, fmt.Sprintf("a flow the specification does not list is reported for the spawned call: spec lists %s, tool reports %s", want, ck.real), content, false)
+				}
+				switch {
+				case want == ck.real && model == ck.real:
+					rep.Count("G:complete(all listed flows reported, = model)")
+				case want == ck.real:
+					rep.Count("G:complete, model differs")
+				default:
+					rep.Count("G:listed flow not reported (goroutine, outside the documented fragment)")
+				}
+				continue
+			}
 			if model != ck.real || want != ck.real {
 				content := append(caseReplay(c, cs, mod), []byte(fmt.Sprintf("\n/* source at argument %d (source_%d)\n   specification lists : %s\n   real tool reports   : %s\n   Contract.visitOneCall: %s\n   (R<j> = result j reaches its sink, A<k> = argument k reaches its sink after the call)\n*/\n", sc.i, sid(c, sc.i), want, ck.real, model))...)
 				if want != ck.real {
@@ -528,6 +632,13 @@ func runBatch(rep *lib.Report, batch int, cs []*ccase, onDemand bool) bool {
 
 func k0(x int) int { return x * 7 }
 
+func splitList(s string) []string {
+	if s == "-" || s == "" {
+		return nil
+	}
+	return strings.Split(s, ",")
+}
+
 func firstLine(s string) string {
 	if i := strings.IndexByte(s, '\n'); i >= 0 {
 		return s[:i]
@@ -541,7 +652,7 @@ func listed(c *ccase, sc *subcase) string {
 	seen := map[string]bool{}
 	if sc.i < len(c.rets) {
 		for _, j := range c.rets[sc.i] {
-			if j >= 0 && j < c.m && !seen[fmt.Sprint("R", j)] {
+			if j >= 0 && j < c.mObs() && !seen[fmt.Sprint("R", j)] {
 				seen[fmt.Sprint("R", j)] = true
 				out = append(out, fmt.Sprintf("R%d", j))
 			}
@@ -568,6 +679,9 @@ func readCaller(sc *subcase, st *dataflow.AnalyzerState, caller *dataflow.Summar
 	if c.form == "MV" {
 		wantName += "$bound"
 	}
+	if c.form == "MX" {
+		wantName += "$thunk"
+	}
 	for _, nodes := range caller.Callees {
 		for _, n := range nodes {
 			if n.Callee() == nil || n.Callee().Name() != wantName {
@@ -587,7 +701,7 @@ func readCaller(sc *subcase, st *dataflow.AnalyzerState, caller *dataflow.Summar
 		sc.shapeErr = fmt.Sprintf("%d call nodes for the call to %s", nCallees, c.fname())
 		return
 	}
-	if c.form == "MV" || (c.form == "IE" && c.embed == "onlyI") {
+	if c.form == "MV" || c.form == "MX" || (c.form == "IE" && c.embed == "onlyI") {
 		// every argument (and the captured receiver) is a pointer: observable after the call
 		sc.ptr = strings.Repeat("1", c.n)
 		return
@@ -663,19 +777,19 @@ func readCaller(sc *subcase, st *dataflow.AnalyzerState, caller *dataflow.Summar
 		}
 		return v % slots
 	}
-	resIdx := make([]string, c.m)
+	resIdx := make([]string, c.mObs())
 	for j := range resIdx {
 		resIdx[j] = "-1"
 	}
 	for dst, infos := range fcall.Out() {
 		slot := slotOf(dst)
-		if slot < 0 || slot >= 4 || slot >= c.m || len(infos) != 1 {
+		if slot < 0 || slot >= 4 || slot >= c.mObs() || len(infos) != 1 {
 			sc.shapeErr = fmt.Sprintf("unexpected out edge of the call node to %s (%d edge infos)", dst.String(), len(infos))
 			return
 		}
 		resIdx[slot] = strconv.Itoa(infos[0].Index)
 	}
-	if len(fcall.Out()) != c.m {
+	if len(fcall.Out()) != c.mObs() {
 		sc.shapeErr = fmt.Sprintf("call node has %d out edges for %d results", len(fcall.Out()), c.m)
 		return
 	}
@@ -689,6 +803,9 @@ func readCaller(sc *subcase, st *dataflow.AnalyzerState, caller *dataflow.Summar
 			slot := slotOf(dst)
 			if slot == 4+k {
 				ptr[k] = '1'
+			} else if closureExit(c, dst, caller) {
+				// closure forms: a pointer-like argument also flows back to the closure's own parameter / free
+				// variable (observed by the enclosing function after the closure returns; no sink there)
 			} else if _, isCall := dst.(*dataflow.CallNode); !isCall || k != sc.i {
 				// (the tainted argument has a back edge to the source call node: not followed, see model)
 				sc.shapeErr = fmt.Sprintf("unexpected out edge of argument %d to %s", k, dst.String())
@@ -706,6 +823,20 @@ func readCaller(sc *subcase, st *dataflow.AnalyzerState, caller *dataflow.Summar
 	}
 }
 
+// closureExit: dst is a parameter or free-variable node of the closure that contains the call (forms C, CC).
+func closureExit(c *ccase, dst dataflow.GraphNode, caller *dataflow.SummaryGraph) bool {
+	if c.wrap != "C" && c.wrap != "CC" {
+		return false
+	}
+	switch x := dst.(type) {
+	case *dataflow.ParamNode:
+		return c.wrap == "C" && x.Graph() == caller
+	case *dataflow.FreeVarNode:
+		return c.wrap == "CC" && x.Graph() == caller
+	}
+	return false
+}
+
 func b01(x bool) string {
 	if x {
 		return "1"
@@ -721,7 +852,7 @@ func caseReplay(c *ccase, all []*ccase, mod string) []byte {
 
 func main() {
 	rep := lib.NewReport(prop)
-	rep.Rule = "one case per (specification matrix, form, body, source position): all 0/1 Args x Rets matrices for arity <= 2 (and 3 in the thorough tier) x {F, FM, I, IP} x {body flows all, body flows nothing}; sampled arity 3 in the quick tier; plus a malformed stream; distinct = distinct case key; non-trivial = arity >= 1"
+	rep.Rule = "one case per (specification matrix, form, body, source position): all 0/1 Args x Rets matrices for arity <= 2 (and 3 in the thorough tier) x {F, FM, I, IP} x {body flows all, body flows nothing}; every such matrix also under one of the call forms defer / go / closure (parameters, captured) / method expression (thorough: all five); sampled arity 3 in the quick tier; plus a malformed stream; distinct = distinct case key; non-trivial = arity >= 1"
 	cs := buildCases(rep)
 	batchSize := 900
 	nb := 0
